@@ -18,7 +18,9 @@ class Prop:
             "0/2/6 CPU hogs, random sleeps in Bind.Send / receive / TUN Read / TUN Write gates, every 6th run a slow consumer with "
             "one-packet containers so that the 1024-deep per-peer queues fill, every 6th run starts with Down / TUN packets for configured "
             "peers while down / Up before the sessions, every 6th run removes one of 2-3 peers (UAPI remove=true) in the middle of a flood "
-            "of 1300..1400-byte packets at GOMAXPROCS 2 (the removed peer's lanes only have to be prefixes), every 2nd run interleaves forged "
+            "of 1300..1400-byte packets at GOMAXPROCS 2 (the removed peer's lanes only have to be prefixes), two runs in three interleave junk datagrams into the inbound flood (one in 3/8/25: shorter than 32 bytes, unknown receiver index, "
+            "unknown type, handshake message of a wrong length, replayed datagram, keepalive, authenticated message with a malformed / "
+            "foreign-source inner packet, message under a keypair aged beyond RejectAfterTime): none may reach the TUN, every genuine one must, in order; every 2nd run interleaves forged "
             "datagrams (live receiver index, bad tag; one in 4/10/40) into the inbound flood, one dedicated run per check returns 12 isolated "
             "temporary receive errors (own conn.Bind wrapper) each followed by a batch that must arrive (about 4.5 s, run concurrently), every 6th run "
             "has 3-6 extra flusher goroutines (keepalives, UAPI sets) on 1-3 Ps with 8000 one-packet containers (judged as multisets), every 6th run "
@@ -58,6 +60,8 @@ class Prop:
             "runs_with_down_up_prelude": sum(1 for c in cases if c["cfg"].get("down_up")),
             "runs_with_peer_removed_mid_traffic": sum(1 for c in cases if c["cfg"].get("remove")),
             "runs_with_forged_datagrams": sum(1 for c in cases if c["cfg"].get("forged_one_in")),
+            "runs_with_junk_inside_receive_batches": sum(1 for c in cases if c["cfg"].get("junk_one_in")),
+            "junk_datagrams_injected": sum(c["info"].get("junk", 0) for c in cases),
             "forged_datagrams_injected": sum(c["info"].get("forged", 0) for c in cases),
             "runs_with_isolated_receive_errors": sum(1 for c in cases if c["cfg"].get("recv_errs")),
             "runs_with_batches_staged_before_the_session": sum(1 for c in cases if c["cfg"].get("staged_before")),
